@@ -23,7 +23,9 @@ def main():
         argv = argv[:argv.index("--")]
     a = ap.parse_args(argv)
     patch = a.change
-    if a.change != "none" and not os.path.isfile(patch):
+    if a.change != "none" and os.path.isfile(patch):
+        patch = os.path.abspath(patch)
+    elif a.change != "none":
         patch = os.path.join(VERIF, "seeded", a.change, "patch.diff")
     scratch = tempfile.mkdtemp(prefix="rxtry-")
     try:
